@@ -1,3 +1,5 @@
 SPECIFICATION Spec
 INVARIANT Inv
+INVARIANT InvH2
+INVARIANT InvTls
 CHECK_DEADLOCK FALSE
